@@ -20,6 +20,12 @@ for scn, cmd in _CMD.items():
                         functions=[("main", "main/naken_util.cpp", "harness, one concrete command line (T11 drops the unused #include <string>)"), ("String::*", "common/String.cpp", "real callee")],
                         defines=["VERIF_PURE_BODY=;", "SCN=%d" % scn], unwind=40, unwindset=["naken_util_main.1:2"], checks=CH, timeout=600,
                         bounded="the single command line `naken_util %s`, standard input at end of file; file_read, UtilContext and Simulate are contracts" % cmd))
+_g21 = Group(name="C19/naken_util.main.readline_eof[bounded]", unity="C19/u_utilmain.cpp", entry="h_utilmain",
+             functions=[("main", "main/naken_util.cpp", "harness, the shipped -DREADLINE configuration; readline/history replaced by a contract header (contracts/C19/shadow)"), ("String::*", "common/String.cpp", "real callee")],
+             defines=["VERIF_PURE_BODY=;", "SCN=21", "READLINE"], includes=["C19/shadow"], unwind=40, unwindset=["naken_util_main.1:4"], checks=CH, timeout=900,
+             bounded="the session `naken_util a.hex` with one command line (`registers`) followed by end of input; the unwinding bound of the command loop (3 iterations) is the termination obligation")
+_g21.unwind_is_spec = True
+GROUPS.append(_g21)
 LEVEL = "other"
 EXPLANATION = ("Bounded model checking (CBMC, complete unwinding for the stated string lengths) of the real command parsers and write commands, plus the bounded Memory "
                "byte-map/16-bit round-trip checks shared with C05; strings are unbounded in the tool, so no unbounded proof is claimed.")
